@@ -111,7 +111,7 @@ def update(data, query, option_prefix="~"):
 
         if option_prefix:
             if str(value).startswith(str(option_prefix)):
-                value = str(value).replace(option_prefix, "")
+                value = str(value)[len(str(option_prefix)):]  # only the prefix is the option sign ("~a~b" is the optional value "a~b")
                 is_value_optional = True
             else:
                 is_value_optional = False
